@@ -109,6 +109,31 @@ func refOf(text string) fileRef {
 			id = c.Identifier() // `@Ann(value = 1)`: the name of an annotation element
 		case *parser.InnerCreatorContext:
 			id = c.Identifier() // `outer.new Inner()`: a member of outer's type
+		// variables bound by patterns, lambdas, catch clauses, resources, `var` declarations; labels
+		case *parser.PatternContext:
+			id = c.Identifier()
+		case *parser.GuardedPatternContext:
+			id = c.Identifier()
+		case *parser.SwitchLabelContext:
+			id = c.GetVarName()
+		case *parser.LambdaParametersContext:
+			for _, x := range c.AllIdentifier() {
+				declared[x.GetStart().GetTokenIndex()] = true
+			}
+		case *parser.LambdaLVTIParameterContext:
+			id = c.Identifier()
+		case *parser.CatchClauseContext:
+			id = c.Identifier()
+		case *parser.LocalVariableDeclarationContext:
+			id = c.Identifier()
+		case *parser.ResourceContext:
+			if c.VAR() != nil {
+				id = c.Identifier()
+			}
+		case *parser.RecordComponentContext:
+			id = c.Identifier()
+		case *parser.StatementContext:
+			id = c.GetIdentifierLabel()
 		}
 		if id != nil {
 			declared[id.GetStart().GetTokenIndex()] = true
